@@ -183,6 +183,8 @@ type signed17 struct {
 	sd      m7Signed
 	kind    string
 	content []byte
+	second  string
+	signer  string
 }
 
 func attrOf(t asn1.ObjectIdentifier, v interface{}) m7Attr {
@@ -257,7 +259,7 @@ func certOf(kind string, h *holder17) *x509.Certificate {
 	return h.rsaCert
 }
 
-func makeSigned(kind string, attrs, detached bool, signer string, content []byte) *signed17 {
+func makeSigned(kind string, attrs, detached bool, signer string, content []byte, second string) *signed17 {
 	h := h17[signer]
 	cert := certOf(kind, h)
 	digAlg, sigAlg := pkix.AlgorithmIdentifier{Algorithm: o7SHA1}, pkix.AlgorithmIdentifier{Algorithm: o7SHA1RSA}
@@ -267,7 +269,7 @@ func makeSigned(kind string, attrs, detached bool, signer string, content []byte
 			digAlg.Algorithm = o7SM3b // the other identifier the package lists for SM3
 		}
 	}
-	if kind == "rsa" && attrs && (signer == "a" || signer == "c") {
+	if kind == "rsa" && attrs && (signer == "a" || signer == "c") && (second == "" || second == "none") {
 		// the package's own producer
 		if s := librarySigned(h, detached, content, signer == "c"); s != nil {
 			return s
@@ -292,7 +294,35 @@ func makeSigned(kind string, attrs, detached bool, signer string, content []byte
 		sd.ContentInfo.Content = asn1.RawValue{Class: 2, Tag: 0, IsCompound: true, Bytes: oct}
 	}
 	sd.Certificates = certsRaw(cert.Raw)
-	return &signed17{sd: sd, kind: kind, content: content}
+	if second == "attrs" || second == "noattrs" {
+		// a second signer: the first other holder, with its own attributes (another signing time) or none
+		o := other17(signer)
+		oc := certOf(kind, h17[o])
+		si2 := m7Signer{Version: 1, IssuerAndSerialNumber: m7IAS{asn1.RawValue{FullBytes: oc.RawIssuer}, oc.SerialNumber}, DigestAlgorithm: digAlg, DigestEncryptionAlgorithm: sigAlg}
+		if second == "attrs" {
+			si2.AuthenticatedAttributes = sortedAttrs([]m7Attr{attrOf(o7AttrCT, o7Data), attrOf(o7AttrMD, digest17(kind, content)), attrOf(o7AttrTime, signingTime0.Add(2*time.Hour))})
+			si2.EncryptedDigest = sign17(kind, h17[o], attrsDER(si2.AuthenticatedAttributes))
+		} else {
+			si2.EncryptedDigest = sign17(kind, h17[o], content)
+		}
+		sd.SignerInfos = append(sd.SignerInfos, si2)
+		sd.Certificates = certsRaw(cert.Raw, oc.Raw)
+	}
+	if second != "attrs" && second != "noattrs" {
+		signer = ""
+	}
+	return &signed17{sd: sd, kind: kind, content: content, second: second, signer: signer}
+}
+
+// the holder Containers.tla's OtherHolder picks is any other one; here: the next in the list
+func other17(signer string) string {
+	names := []string{"a", "b", "c", "x"}
+	for i, n := range names {
+		if n == signer {
+			return names[(i+1)%len(names)]
+		}
+	}
+	return "a"
 }
 
 // NewSignedData / AddSigner / Detach / Finish, read back into the mirror structures so that the same changes apply
@@ -328,13 +358,39 @@ func librarySigned(h *holder17, detached bool, content []byte, extra bool) *sign
 	return &signed17{sd: m, kind: "rsa", content: content}
 }
 
-func certsRaw(der []byte) m7RawCerts {
-	b, _ := asn1.Marshal(asn1.RawValue{Class: 2, Tag: 0, IsCompound: true, Bytes: der})
+func certsRaw(ders ...[]byte) m7RawCerts {
+	b, _ := asn1.Marshal(asn1.RawValue{Class: 2, Tag: 0, IsCompound: true, Bytes: bytes.Join(ders, nil)})
 	return m7RawCerts{Raw: b}
 }
 
+// the same structure with the SET OF SignerInfo given as raw bytes: encoding/asn1 sorts the elements of a SET OF, which
+// would always put the shorter signer (the one without attributes) first; with two signers the order on the wire is the
+// order of the list (BER allows any order, and the parser reads them as they come)
+type m7SignedRawSigners struct {
+	Version                    int                        `asn1:"default:1"`
+	DigestAlgorithmIdentifiers []pkix.AlgorithmIdentifier `asn1:"set"`
+	ContentInfo                m7ContentInfo
+	Certificates               m7RawCerts `asn1:"optional,tag:0"`
+	SignerInfos                asn1.RawValue
+}
+
 func (s *signed17) marshal() []byte {
-	inner, err := asn1.Marshal(s.sd)
+	var inner []byte
+	var err error
+	if len(s.sd.SignerInfos) == 2 {
+		var list []byte
+		for _, si := range s.sd.SignerInfos {
+			b, e := asn1.Marshal(si)
+			if e != nil {
+				panic(e)
+			}
+			list = append(list, b...)
+		}
+		inner, err = asn1.Marshal(m7SignedRawSigners{s.sd.Version, s.sd.DigestAlgorithmIdentifiers, s.sd.ContentInfo, s.sd.Certificates,
+			asn1.RawValue{Class: 0, Tag: 17, IsCompound: true, Bytes: list}})
+	} else {
+		inner, err = asn1.Marshal(s.sd)
+	}
 	if err != nil {
 		panic(err)
 	}
@@ -357,6 +413,13 @@ func changed17(b []byte) []byte {
 func (s *signed17) tamper(t string, attrs bool) error {
 	si := &s.sd.SignerInfos[0]
 	other := func() *holder17 {
+		if s.signer != "" { // two signers: a holder that is neither of them
+			for _, n := range []string{"a", "b", "c", "x"} {
+				if n != s.signer && n != other17(s.signer) {
+					return h17[n]
+				}
+			}
+		}
 		for _, n := range []string{"a", "b", "c", "x"} {
 			if !bytes.Equal(certOf(s.kind, h17[n]).Raw, certDER(s.sd.Certificates)) {
 				return h17[n]
@@ -390,6 +453,11 @@ func (s *signed17) tamper(t string, attrs bool) error {
 			data = attrsDER(si.AuthenticatedAttributes)
 		}
 		si.EncryptedDigest = sign17(s.kind, other(), data)
+	case "second_over_attrs":
+		if len(s.sd.SignerInfos) != 2 || len(s.sd.SignerInfos[1].AuthenticatedAttributes) != 0 {
+			return fmt.Errorf("second_over_attrs needs a second signer without attributes")
+		}
+		s.sd.SignerInfos[1].EncryptedDigest = sign17(s.kind, h17[other17(s.signer)], attrsDER(si.AuthenticatedAttributes))
 	case "swap_cert":
 		s.sd.Certificates = certsRaw(certOf(s.kind, other()).Raw)
 	default:
@@ -827,6 +895,7 @@ type case17 struct {
 		Attrs    bool     `json:"attrs"`
 		Detached bool     `json:"detached"`
 		Signer   string   `json:"signer"`
+		Second   string   `json:"second"`
 		Pw       string   `json:"pw"`
 		Keykind  string   `json:"keykind"`
 		Ncas     int      `json:"ncas"`
@@ -887,7 +956,7 @@ func runCase17(c *case17) (got string, detail string) {
 			}
 		case "signed":
 			content := content17(c.Make.Len)
-			s := makeSigned(c.Make.Kind, c.Make.Attrs, c.Make.Detached, c.Make.Signer, content)
+			s := makeSigned(c.Make.Kind, c.Make.Attrs, c.Make.Detached, c.Make.Signer, content, c.Make.Second)
 			if err := s.tamper(c.Tamper, c.Make.Attrs); err != nil {
 				got, detail = "make-error", err.Error()
 				return
@@ -1005,11 +1074,37 @@ func c17sweep(args []string) error {
 	tried := map[string]int{}
 	content := content17(100)
 	vals := func(b byte) []byte { return []byte{b ^ 0x01, b ^ 0x80, 0x00, 0xff} }
+	// an RSA envelope with DES-CBC content (the default: no integrity of its own) opened 2000 times with a certificate of
+	// the recipient list and the key of ANOTHER holder: an error every time.  (An unwrap that turns a failure into a random
+	// content key - a countermeasure against padding oracles - leaves only the block padding in the way: one in 256.)
+	if env, err := makeEnvelope("rsa", "des", 0, []string{"a"}, content); err != nil {
+		finds = append(finds, finding{"envelope des rsa", -1, 0, "PKCS7Encrypt: " + err.Error()})
+	} else if p7, err := x509.ParsePKCS7(env); err != nil {
+		finds = append(finds, finding{"envelope des rsa", -1, 0, "ParsePKCS7: " + err.Error()})
+	} else {
+		name := "envelope des rsa, another holder's key"
+		for i := 0; i < 2000; i++ {
+			tried[name]++
+			var out []byte
+			var derr error
+			if pan := recoverStr(func() { out, derr = p7.Decrypt(h17["a"].rsaCert, h17["b"].rsaKey) }); pan != "" {
+				finds = append(finds, finding{name, -1, i, "panic: " + pan})
+				break
+			}
+			if derr == nil {
+				finds = append(finds, finding{name, -1, i, fmt.Sprintf("attempt %d returned %d bytes and no error to a holder who is not a recipient", i+1, len(out))})
+				break
+			}
+		}
+		if out, derr := p7.Decrypt(h17["a"].rsaCert, h17["a"].rsaKey); derr != nil || !bytes.Equal(out, content) {
+			finds = append(finds, finding{name, -1, 0, fmt.Sprintf("the recipient's own key does not open it: %v", derr)})
+		}
+	}
 	// signed data
 	for _, kind := range []string{"sm2", "rsa"} {
 		for _, attrs := range []bool{true, false} {
 			for _, det := range []bool{false, true} {
-				s := makeSigned(kind, attrs, det, "a", content)
+				s := makeSigned(kind, attrs, det, "a", content, "none")
 				der := s.marshal()
 				name := fmt.Sprintf("signed %s attrs=%v detached=%v", kind, attrs, det)
 				if g, d := verify17(der, det, content); g != "verified" {
